@@ -26,6 +26,17 @@ func init() {
 	}
 }
 
+// coverage probes: one counter per payload kind / EAP method that made the round trip
+var kindProbe = map[string]string{}
+var eapProbe = map[string]string{"": "probe_roundtrip_EAP_success_failure", "identity": "probe_roundtrip_EAP_identity", "notification": "probe_roundtrip_EAP_notification",
+	"nak": "probe_roundtrip_EAP_nak", "expanded": "probe_roundtrip_EAP_expanded", "aka": "probe_roundtrip_EAP_aka_prime"}
+
+func init() {
+	for _, k := range allKinds {
+		kindProbe[k] = "probe_roundtrip_payload_" + k
+	}
+}
+
 func c01Send(c *sendCtx) {
 	w, s := c.w, c.s
 	switch c.res.class() {
@@ -117,6 +128,13 @@ func c01Deliver(c *deliverCtx) {
 	}
 	if len(d.Spec.Payloads) == 0 {
 		w.stats.inc("probe_empty_payload_list")
+	}
+	for i := range d.Spec.Payloads {
+		p := &d.Spec.Payloads[i]
+		w.stats.inc(kindProbe[p.Kind])
+		if p.Kind == "EAP" && p.EAP != nil {
+			w.stats.inc(eapProbe[p.EAP.Kind])
+		}
 	}
 	if d.NilKey {
 		// with no SA keys the entry point behaves as plain decode
